@@ -579,7 +579,10 @@ pub open spec fn ends_ok(net: &Network, s: Seq<NodeIdx>) -> bool {
             lemma_cuts(self, s, e1);
         }
 //@before "let visits_maintenance"
-        proof { lemma_remove_vm(self, pos_seg_start as int, pos_seg_end + 1); }
+        proof {
+            lemma_remove_vm(self, pos_seg_start as int, pos_seg_end + 1);
+            lemma_remove_wf(self, tour_nodes@, pos_seg_start as int, pos_seg_end as int);
+        }
 //@before "Ok(( Some(Tour::new_precomputed("
         proof {
             let s = pos_seg_start as int; let e1 = pos_seg_end + 1;
